@@ -72,31 +72,84 @@ def _rows(r, nq):
     return out
 
 
-def call_tomtom(spec):
-    """spec: dict(Q, T, nb, rc, ntb, threads, chunk, nn, api) with Q the actual query list."""
+_OBJ = {}
+
+
+def _obj(col_list, dt, form):
+    """ONE Python object per (matrix, dtype, container) for the whole process: every call that uses the
+    matrix gets the very same numpy array / torch tensor (stale caches keyed on identity and in-place
+    modification of caller data then show up as a row that differs from the reference, which is
+    computed on fresh objects)"""
+    import torch
+    key = json.dumps([col_list, dt, form])
+    if key not in _OBJ:
+        if len(_OBJ) > 400:
+            _OBJ.clear()
+        a = numpy.array(col_list, dtype='float64').T.astype(dt or 'float64').copy()
+        _OBJ[key] = torch.from_numpy(a) if form == 'torch' else a
+    return _OBJ[key]
+
+
+def call_tomtom(spec, fresh=False):
+    """spec: dict(Q, T, nb, rc, ntb, threads, chunk, nn, api, + options) with Q the actual query list."""
     import numba
+    import torch
     from tangermeme.tools.tomtom import tomtom
-    Qs, Ts = c14.arrays(spec)
-    if spec.get('Qdt'):
-        Qs = [q.astype(dt) for q, dt in zip(Qs, spec['Qdt'])]
-    if spec.get('Tdt'):
-        Ts = [t.astype(dt) for t, dt in zip(Ts, spec['Tdt'])]
-    kw = dict(n_score_bins=spec['nb'], n_target_bins=spec['ntb'], reverse_complement=spec['rc'],
-              n_cache=2 * spec['nb'] + 10, n_nearest=spec['nn'])
+    qdt = spec.get('Qdt') or [None] * len(spec['Q'])
+    tdt = spec.get('Tdt') or [None] * len(spec['T'])
+    if fresh:
+        _OBJ_saved = dict(_OBJ)
+        _OBJ.clear()
+    Qs = [_obj(q, dt, spec.get('Qform')) for q, dt in zip(spec['Q'], qdt)]
+    Ts = [_obj(t, dt, spec.get('Tform')) for t, dt in zip(spec['T'], tdt)]
+    if fresh:
+        _OBJ.clear()
+        _OBJ.update(_OBJ_saved)
+    nT0 = len(Ts)
+    rc = spec['rc']
+    rc = {'int': int(rc), 'npbool': numpy.bool_(rc)}.get(spec.get('rc_form'), rc)
+    kw = dict(n_score_bins=spec['nb'], n_target_bins=spec['ntb'], reverse_complement=rc,
+              n_cache=spec.get('ncache') or 2 * spec['nb'] + 10, n_nearest=spec['nn'])
+    if spec.get('nmb'):
+        kw['n_median_bins'] = spec['nmb']
     if spec.get('threads'):
-        kw['n_jobs'] = spec['threads']
+        kw['n_jobs'] = numpy.int64(spec['threads']) if spec.get('njobs_np') else spec['threads']
+    if spec.get('bare'):          # every default: 100 bins, hashing 100, n_cache 100, reverse complement, all threads
+        kw = dict(n_nearest=spec['nn']) if spec['nn'] is not None else {}
     before = numba.get_num_threads()
     try:
         numba.set_parallel_chunksize(spec.get('chunk', 0))
         if spec.get('api') == 'annotate':
             import pandas
-            import torch
             from tangermeme.annotate import annotate_seqlets
-            X = torch.from_numpy(numpy.concatenate(Qs, axis=-1)[None])
-            ends = numpy.cumsum([q.shape[-1] for q in Qs])
-            seqlets = pandas.DataFrame({'example_idx': 0, 'start': ends - [q.shape[-1] for q in Qs], 'end': ends})
+            ann = spec.get('ann') or {}
+            lens = [int(q.shape[-1]) for q in Qs]
+            qn = [numpy.asarray(q) for q in Qs]
+            if ann.get('multi'):      # one example per seqlet, seqlets at different offsets, rows padded with zeros
+                L = max(lens) + 7
+                X = numpy.zeros((len(qn), qn[0].shape[0], L), dtype='float64')
+                ex = list(range(len(qn)))
+                st = [(k * 3) % (L - lens[k] + 1) for k in range(len(qn))]
+                for k, q in enumerate(qn):
+                    X[k, :, st[k]:st[k] + lens[k]] = q
+                starts, ends = numpy.array(st), numpy.array(st) + numpy.array(lens)
+            else:
+                X = numpy.concatenate(qn, axis=-1)[None]
+                ex = [0] * len(qn)
+                ends = numpy.cumsum(lens)
+                starts = ends - numpy.array(lens)
+            if ann.get('int8'):
+                X = X.astype('int8')
+            X = torch.from_numpy(X)
+            cols = {'example_idx': ex, 'start': starts, 'end': ends}
+            if ann.get('extra'):      # additional columns and a non-default index must be ignored
+                cols['name'] = ['s%d' % k for k in range(len(qn))]
+                cols['attribution'] = [0.5 * k for k in range(len(qn))]
+            seqlets = pandas.DataFrame(cols)
+            if ann.get('extra'):
+                seqlets.index = [100 - 3 * k for k in range(len(qn))]
             motifs = {'m%d' % i: t for i, t in enumerate(Ts)}
-            kw.pop('n_nearest')
+            kw.pop('n_nearest', None)
             nj = kw.pop('n_jobs', -1)
             idxs, pv = annotate_seqlets(X, seqlets, motifs, n_nearest=spec['nn'], n_jobs=nj, **kw)
             rows = [[[[flx(float(pv[qi, k]))] + [None] * 4, int(idxs[qi, k])] for k in range(pv.shape[1])]
@@ -106,7 +159,7 @@ def call_tomtom(spec):
     finally:
         numba.set_parallel_chunksize(0)
     restored = numba.get_num_threads() == before
-    return {'rows': rows, 'threads_restored': restored}
+    return {'rows': rows, 'threads_restored': restored, 'list_modified': len(Ts) != nT0}
 
 
 def hook_state():
@@ -174,7 +227,7 @@ def worker_call(spec):
 
 
 def base_key(inp):
-    return json.dumps([inp['Q'], inp['T'], inp['nb'], inp['rc'], inp['ntb'], inp.get('Qdt'), inp.get('Tdt')])
+    return json.dumps([inp['Q'], inp['T'], inp['nb'], inp['rc'], inp['ntb'], inp.get('Qdt'), inp.get('Tdt'), inp.get('nmb')])
 
 
 def reference(inp):
@@ -184,14 +237,14 @@ def reference(inp):
         return _ref_cache[k]
     ref = None
     try:
-        Qs, Ts = c14.arrays(inp)
+        Qs, Ts = c14.arrays({'Q': inp['Q'], 'T': inp['T']})
         P = c14.prep(Qs, Ts, inp['rc'], inp['ntb'])
-        c14.stage(P, inp['nb'])                    # raises ZeroDivisionError on degenerate bases
+        c14.stage(P, inp['nb'], inp.get('nmb') or 1000)   # raises ZeroDivisionError on degenerate bases
         ref = []
         for qi, q in enumerate(inp['Q']):
             r = call_tomtom(dict(Q=[q], T=inp['T'], nb=inp['nb'], rc=inp['rc'], ntb=inp['ntb'],
-                                 threads=1, chunk=0, nn=None, Tdt=inp.get('Tdt'),
-                                 Qdt=[inp['Qdt'][qi]] if inp.get('Qdt') else None))
+                                 threads=1, chunk=0, nn=None, Tdt=inp.get('Tdt'), nmb=inp.get('nmb'),
+                                 Qdt=[inp['Qdt'][qi]] if inp.get('Qdt') else None), fresh=True)
             ref.append(r['rows'][0])
     except ZeroDivisionError:
         ref = None
@@ -208,7 +261,9 @@ def run_impl(inp):
             return {'ok': False, 'why': 'degenerate base'}
         spec = dict(Q=[inp['Q'][i] for i in inp['idxs']], T=inp['T'], nb=inp['nb'], rc=inp['rc'], ntb=inp['ntb'],
                     threads=inp['threads'], chunk=inp['chunk'], nn=inp['nn'], api=inp.get('api', 'tomtom'),
-                    Tdt=inp.get('Tdt'), Qdt=[inp['Qdt'][i] for i in inp['idxs']] if inp.get('Qdt') else None)
+                    Tdt=inp.get('Tdt'), Qdt=[inp['Qdt'][i] for i in inp['idxs']] if inp.get('Qdt') else None,
+                    nmb=inp.get('nmb'), ncache=inp.get('ncache'), Qform=inp.get('Qform'), Tform=inp.get('Tform'),
+                    rc_form=inp.get('rc_form'), njobs_np=inp.get('njobs_np'), bare=inp.get('bare'), ann=inp.get('ann'))
         if inp.get('poison') == 'B':
             r = worker_call(spec)
             if 'error' in r:
@@ -303,8 +358,20 @@ def gen_base(rng, onehot=False):
     if c14.distinct_cols(T) < 2:
         T.append(c14.pwm(rs, 2, 1.0, 0))
     rc = rng.random() < 0.5
-    ntb = 100 if (grid and rng.random() < 0.5) else None
-    return {'Q': Q, 'T': T, 'nb': nb, 'rc': rc, 'ntb': ntb}
+    ntb = rng.choice([4, 10, 100, 1000]) if rng.random() < 0.45 else None     # non-injective hashing is fine for C13
+    base = {'Q': Q, 'T': T, 'nb': nb, 'rc': rc, 'ntb': ntb}
+    if rng.random() < 0.3:
+        base['nmb'] = rng.choice([1, 7, 100, 5000])
+    if not onehot and rng.random() < 0.15:          # alphabets other than 4 letters
+        A = rng.choice([2, 3, 5, 20])
+        base['Q'] = [c14.pwm_alpha(rs, L, A) for L in lens]
+        base['T'] = [c14.pwm_alpha(rs, len(t_), A) for t_ in T]
+        if A > 5:
+            base['ntb'] = None
+        return base
+    if rng.random() < 0.2 and max(lens) <= 13:     # a base on which the call with every default is legitimate
+        base.update(nb=100, rc=True, ntb=100, nmb=None, bare_ok=True)
+    return base
 
 
 def gen_zero_base(rng):
@@ -364,7 +431,8 @@ def annot_variants(rng, base, n_random):
     nT = len(base['T'])
     for j, idxs in enumerate(lists):
         yield dict(base, kind='variant', idxs=idxs, threads=rng.choice([1, 2, 5, 16]), chunk=0,
-                   nn=rng.randint(1, nT), poison='A', api='annotate')
+                   nn=rng.randint(1, nT), poison='A', api='annotate',
+                   ann={'multi': rng.random() < 0.4, 'extra': rng.random() < 0.5})
     for idxs in ([1, 2], [2, 1], [3, 2, 1, 5]):
         yield dict(base, kind='variant', idxs=idxs, threads=rng.choice([1, 3]), chunk=0,
                    nn=None, poison='A', api='tomtom')
@@ -436,8 +504,25 @@ def variants(rng, base, n_random, threads_all):
     for j, idxs in enumerate(lists):
         threads = (j % 16) + 1 if threads_all else rng.choice([1, 2, 3, 4, 7, 8, 13, 16])
         v = dict(base, kind='variant', idxs=idxs, threads=threads, chunk=rng.choice([0, 0, 1, 2, 3]),
-                 nn=None if rng.random() < 0.5 else rng.randint(1, nT),
+                 nn=None if rng.random() < 0.5 else rng.choice([1, nT, rng.randint(1, nT)]),
                  poison='B' if rng.random() < 0.35 else 'A', api='tomtom')
+        # options that must not change a row: n_cache (array dimensions), container, parameter types
+        r = rng.random()
+        if r < 0.15:
+            v['ncache'] = rng.choice([base['nb'] + 1, 4 * base['nb'], 3 * base['nb'] + 7])
+        elif r < 0.25:
+            v['Tform'] = 'torch'
+        elif r < 0.35:
+            v['Qform'] = 'torch'
+            v['Tform'] = rng.choice(['torch', None])
+        elif r < 0.42:
+            v['rc_form'] = rng.choice(['int', 'npbool'])
+        elif r < 0.5:
+            v['njobs_np'] = True
+        elif r < 0.62 and base.get('bare_ok') and v['poison'] == 'A':
+            v['bare'] = True
+            v['threads'] = None
+        v.pop('bare_ok', None)
         yield v
 
 
@@ -469,7 +554,9 @@ def generate(tier, rng):
             for _ in range(4 if quick else 8):
                 idxs = [rng.randrange(k) for _ in range(rng.randint(1, 6))]
                 yield dict(base, kind='variant', idxs=idxs, threads=rng.choice([1, 2, 5, 16]), chunk=0,
-                           nn=rng.randint(1, len(base['T'])), poison='A', api='annotate')
+                           nn=rng.choice([1, len(base['T']), rng.randint(1, len(base['T']))]), poison='A', api='annotate',
+                           ann={'int8': rng.random() < 0.5, 'multi': rng.random() < 0.5, 'extra': rng.random() < 0.5},
+                           Tform=rng.choice([None, 'torch']))
 
 
 def shrink(inp):
